@@ -199,7 +199,7 @@ func c13Delegating(c *eng.Ctx, t, m string, f *ssa.Function, deleg []ssa.CallIns
 		}
 		// args[0] is ctx
 		for i := 1; i < len(args) && i < len(params); i++ {
-			pn := params[i].Name()
+			pn := eng.VarName(params[i])
 			c.Clause("R5", "C13.2")
 			switch {
 			case m == "ListPage" && i >= 2:
@@ -365,7 +365,7 @@ func c13PutEntry(c *eng.Ctx, f *ssa.Function, cl ssa.CallInstruction, arg ssa.Va
 		}
 	}
 	if len(ks) == 0 || len(vs) == 0 {
-		ok, bad, all := eng.OriginsMatch(arg, `^param:`+reQuote(p.Name())+`$`, `^field:[a-z]+\.Entry$`)
+		ok, bad, all := eng.OriginsMatch(arg, `^param:`+reQuote(eng.VarName(p))+`$`, `^field:[a-z]+\.Entry$`)
 		if ok {
 			c.OK(f, "Put entry handed on", cl.Pos(), fmt.Sprint(all))
 		} else {
@@ -1094,7 +1094,7 @@ func c13DelegateOf(cl ssa.CallInstruction) string {
 	}
 	s := eng.Expr(recv)
 	if f := cl.Parent(); f != nil && len(f.Params) > 0 {
-		rn := f.Params[0].Name()
+		rn := eng.VarName(f.Params[0])
 		if s == rn {
 			return "·"
 		}
